@@ -146,8 +146,12 @@ def run_units(lang, units, engines=ENGINES, batch=40):
     _ST["lang"] = lang
     # units of one family stay together (their programs then share declarations' style and fail together)
     jobs = []
-    for i in range(0, len(units), batch):
-        jobs.append((i // batch, units[i:i + batch], tuple(engines)))
+    shared = [u for u in units if not u.get("own_program")]
+    for i in range(0, len(shared), batch):
+        jobs.append((len(jobs), shared[i:i + batch], tuple(engines)))
+    for u in units:
+        if u.get("own_program"):      # a unit whose point is the SIZE of the program around it (symbol / table capacities)
+            jobs.append((len(jobs), [u], tuple(engines)))
     res = {}
     for part in common.pmap(_task, jobs):
         res.update(part)
